@@ -746,3 +746,212 @@ def gen_tuple_case(rng):
             spec["cls"] = rng.choice(["ordered", "subclass"])
         form = "dict-tuple"
     return finish_import(rng, fmt, form, spec, recs)
+
+
+# ---------------------------------------------------------------------------------------------------------------
+# (autoclash) an EXPLICIT id that spells a counter-made key: a feature whose id attribute (or callable return value) reads
+# '<base>_<k>' while the k-th feature of that base that has to be auto-numbered gets exactly that key by the rule (the
+# counters never skip).  The two collide; the merge strategy decides.  Mostly the explicit one comes first (also: already
+# in the database, the anonymous ones arriving through update()), sometimes after.
+AUTOCLASH_STRATEGIES = ["error", "create_unique", "warning", "replace", "merge"]
+AUTOCLASH_FORMS = ["none", "str", "list", "dict", "dict-partial", "callable:name_attr", "callable:id_else_auto_type",
+                   "callable:id_else_auto_x", "callable:mixed"]
+
+
+def autoclash_spec(rng, form, fmt, types):
+    if form == "none" or form.startswith("callable:"):
+        return spec_of(rng, form, [], fmt)
+    if form == "str":
+        return {"form": "str", "v": "ID"}
+    if form == "list":
+        return {"form": "list", "v": rng.choice([["ID", "Name"], ["nokey", "ID"], ["ID"], ["ID", "Alias"]])}
+    ent = lambda: rng.choice(["ID", "ID", ["ID"], ["nokey", "ID"]])
+    if form == "dict":
+        return {"form": "dict", "v": dict((t, ent()) for t in types)}
+    # dict-partial: only some featuretypes have an entry; the others are '<featuretype>_<n>' whatever they carry
+    some = [t for t in types if rng.random() < 0.4]
+    return {"form": "dict", "v": dict((t, ent()) for t in some)}
+
+
+def gen_autoclash_case(rng, strategy=None, path=None):
+    for _ in range(200):
+        fmt = rng.choice(["gff3", "gff3", "gff3", "gtf"])
+        form = rng.choice(AUTOCLASH_FORMS)
+        n = rng.choice([2, 3, 4, 5, 6, 8])
+        recs = records(rng, fmt, n, 0.0)
+        for rec in recs:
+            if rng.random() < 0.7:
+                strip_ids(rec, "anon" + rec["start"])
+        gtf_default = fmt == "gtf" and form == "none"
+        if gtf_default:
+            ctypes = ["gene", "transcript"]
+        elif form == "callable:mixed":
+            ctypes = ["gene", "mRNA"] if fmt == "gff3" else ["gene", "transcript"]
+        else:
+            ctypes = GFF_TYPES if fmt == "gff3" else ["exon", "CDS", "start_codon", "gene", "transcript"]
+        m = rng.choice([1, 1, 1, 2])
+        carrier_types = [rng.choice(ctypes) for _ in range(m)]
+        types = sorted(set(r["featuretype"] for r in recs))
+        spec = autoclash_spec(rng, form, fmt, types + carrier_types)
+        if form == "dict-partial":
+            for t in carrier_types:
+                spec["v"].setdefault(t, "ID")
+        r = MC.derive_all(spec, fmt, recs)
+        if r["outcome"] != "keys" or len(set(r["keys"])) != n:
+            continue
+        auto = [j for j, b in enumerate(r["branches"]) if MC.is_auto(b)]
+        if not auto:
+            continue
+        targets = rng.sample(auto, min(m, len(auto)))
+        idattr = "Name" if form == "callable:name_attr" else "ID"
+        placed = [(float(i), rec) for i, rec in enumerate(recs)]
+        for t, (j, ctype) in enumerate(zip(targets, carrier_types)):
+            key = r["keys"][j]
+            car = records(rng, fmt, 1, 0.0, offset=200 + 3 * t)[0]
+            strip_ids(car, "named")
+            car["featuretype"] = ctype
+            if gtf_default:
+                car["attrs"] = [a for a in car["attrs"] if a[0] not in ("gene_id", "transcript_id")]
+                lead = [["gene_id", [key]]] if ctype == "gene" else [["gene_id", ["G1"]], ["transcript_id", [key]]]
+                car["attrs"] = lead + car["attrs"]
+            else:
+                set_attr(car, idattr, [key])
+                if fmt == "gff3" and rng.random() < 0.5:
+                    car["attrs"].insert(0, car["attrs"].pop())      # the id attribute leads
+            before = rng.random() < 0.8
+            pos = rng.uniform(-0.5, j - 0.01) if before else rng.uniform(j + 0.01, n)
+            placed.append((pos, car))
+        placed.sort(key=lambda x: x[0])
+        recs = [rec for _, rec in placed]
+        r = MC.derive_all(spec, fmt, recs)
+        if r["outcome"] != "keys":
+            continue
+        try:
+            res = MC.resolve(r["keys"], "create_unique")
+        except MC.Silent:
+            continue
+        col = res["collisions"]
+        if not col or len(set(k for k, _, _ in col)) != len(col):
+            continue
+        path = path or rng.choice(["create", "create", "update"])
+        if path == "update":
+            k, first, later = rng.choice(col)
+            cut = rng.randrange(first + 1, later + 1)
+            batches = [recs[:cut], recs[cut:]]
+        else:
+            batches = [recs]
+        return {"kind": "autoclash", "fmt": fmt, "form": form, "spec": spec, "batches": batches, "infer": False,
+                "strategy": strategy or rng.choice(AUTOCLASH_STRATEGIES),
+                "db": "file" if (path == "update" and rng.random() < 0.6) or rng.random() < 0.3 else "memory",
+                "input": rng.choice(["string", "string", "path"]), "reopen_before_update": rng.random() < 0.4}
+    raise RuntimeError("gen_autoclash_case: no case in 200 tries")
+
+
+# ---------------------------------------------------------------------------------------------------------------
+# (dbcopy) create_db(data=<FeatureDB>, id_spec=S): the keys of the new database are fixed by S applied to each feature (and
+# '<featuretype>_<n>' counted 1,2,... in the order the features arrive), never by the keys the features have in the database
+# they come from.  The source is built under ANOTHER id_spec (attribute / column / callable / list / default) and / or gets
+# holes in its numbering (delete) and later additions (update) before it is copied.
+DBCOPY_SRC_FORMS = ["none", "none", "str:Name", "str:nokey", "column", "list", "callable:composite", "callable:autoincrement_const",
+                    "callable:name_attr", "callable:always_none", "callable:autoincrement_seqid", "dict"]
+DBCOPY_FORMS = ["none", "none", "str", "str", "list", "dict-str", "dict-list", "callable:always_none", "callable:id_else_auto_type",
+                "callable:name_attr", "callable:mixed"]
+DBCOPY_HISTORIES = ["plain", "delete", "delete", "delete+update", "update"]
+
+
+def dbcopy_src_spec(rng, form, types):
+    if form == "none" or form.startswith("callable:"):
+        return spec_of(rng, form, [], "gff3")
+    if form.startswith("str:"):
+        return {"form": "str", "v": form.split(":")[1]}
+    if form == "column":
+        return rng.choice([{"form": "str", "v": ":start:"}, {"form": "list", "v": ["nokey", ":end:"]}, {"form": "list", "v": ["Name", ":start:"]}])
+    if form == "list":
+        return {"form": "list", "v": rng.choice([["Name", "ID"], ["nokey", "Name"], ["Name"]])}
+    return {"form": "dict", "v": dict((t, rng.choice(["Name", "Name", ["Name", "ID"], ":start:"])) for t in types if rng.random() < 0.7) or {"absent_type": "Name"}}
+
+
+def dbcopy_spec(rng, form, types):
+    if form == "none" or form.startswith("callable:"):
+        return spec_of(rng, form, [], "gff3")
+    if form == "str":
+        return {"form": "str", "v": rng.choice(["ID", "ID", "ID", "Name", "Alias", "nokey", ":start:"])}
+    if form == "list":
+        return {"form": "list", "v": rng.choice([attr_list(rng), ["ID", "Name"], ["nokey", "ID"], ["ID", ":end:"]])}
+    ent = (lambda: attr_name(rng)) if form == "dict-str" else (lambda: rng.choice([attr_list(rng), ["ID"], ["nokey", "ID"]]))
+    d = dict((t, ent()) for t in types + ["absent_type"] if rng.random() < 0.55)
+    if not d:
+        d["absent_type"] = ent()
+    spec = {"form": "dict", "v": d}
+    if rng.random() < 0.2:
+        spec["cls"] = rng.choice(["ordered", "subclass"])
+    return spec
+
+
+def gen_dbcopy_case(rng, history=None):
+    for _ in range(300):
+        fmt = rng.choice(["gff3", "gff3", "gff3", "gtf"])
+        n = rng.choice([2, 3, 4, 5, 6, 8, 12])
+        base = records(rng, fmt, n, 0.0)
+        for rec in base:
+            if rng.random() < 0.35:
+                strip_ids(rec, "anon" + rec["start"])
+        hist = history or rng.choice(DBCOPY_HISTORIES)
+        added = []
+        if "update" in hist:
+            added = records(rng, fmt, rng.choice([1, 2, 3]), 0.0, offset=40)
+            for rec in added:
+                if rng.random() < 0.5:
+                    strip_ids(rec, "added" + rec["start"])
+        types = sorted(set(r["featuretype"] for r in base + added))
+        sform = rng.choice(DBCOPY_SRC_FORMS)
+        if hist == "plain" and sform == "none":
+            sform = rng.choice(["str:Name", "callable:composite", "column", "callable:always_none"])
+        spec1 = dbcopy_src_spec(rng, sform, types)
+        r1 = MC.derive_all(spec1, fmt, base)
+        if r1["outcome"] != "keys":
+            continue
+        r1b = MC.derive_all(spec1, fmt, added, r1["deriver"])
+        if r1b["outcome"] != "keys" or len(set(r1["keys"] + r1b["keys"])) != len(base) + len(added):
+            continue
+        ops = []
+        gone = []
+        if "delete" in hist:
+            # prefer the lines the source auto-numbered (holes in ITS numbering), not only the last ones
+            auto = [i for i, b in enumerate(r1["branches"]) if MC.is_auto(b)]
+            cand = auto if auto and rng.random() < 0.8 else list(range(n))
+            gone = sorted(rng.sample(cand, rng.randrange(1, min(len(cand), 3) + 1)))
+            if len(gone) == n:
+                gone = gone[:-1]
+            if not gone:
+                continue
+            ops.append({"op": "delete", "lines": [[base[i]["start"], base[i]["end"]] for i in gone], "as": rng.choice(["id", "feature"])})
+        if added:
+            ops.append({"op": "update", "recs": added})
+        form = rng.choice(DBCOPY_FORMS)
+        spec = dbcopy_spec(rng, form, types)
+        if spec == spec1 and not gone:
+            continue
+        # predicted arrival order (chronological); the check judges by the order the source actually iterates
+        order = [rec for i, rec in enumerate(base) if i not in gone] + added
+        r = MC.derive_all(spec, fmt, order)
+        if r["outcome"] == "silent" or (r["outcome"] == "keys" and len(set(r["keys"])) != len(order)):
+            continue
+        later = []
+        if r["outcome"] == "keys" and rng.random() < 0.4:
+            later = records(rng, fmt, rng.choice([1, 2, 3]), 0.0, offset=80)
+            pool = sorted(set(x["featuretype"] for x in order))
+            for rec in later:
+                if rng.random() < 0.8:
+                    rec["featuretype"] = rng.choice(pool)
+                if rng.random() < 0.8:
+                    strip_ids(rec, "later" + rec["start"])
+            r2 = MC.derive_all(spec, fmt, later, r["deriver"])
+            if r2["outcome"] != "keys" or len(set(r["keys"] + r2["keys"])) != len(order) + len(later):
+                continue
+        srcdb = rng.choice(["memory", "file", "file"])
+        return {"kind": "dbcopy", "fmt": fmt, "form": form, "sform": sform, "history": hist, "spec1": spec1, "spec": spec,
+                "base": base, "ops": ops, "later": later, "infer": False, "srcdb": srcdb,
+                "src_handle": "FeatureDB" if srcdb == "file" and rng.random() < 0.5 else "create_db",
+                "db": rng.choice(["memory", "memory", "file"]), "reopen": rng.random() < 0.5}
+    raise RuntimeError("gen_dbcopy_case: no case in 300 tries")
